@@ -46,10 +46,11 @@ DecreaseOnlyWithAuthority(pre, post, t, grants) ==
 
 \* the realm-issued denomination: balances of it decrease only when the holder signed a transfer
 \* of it or the issuing realm's own code used its RealmIssue authority; supply changes only then
-RealmDenomAuthority(preV, postV, t) ==
+RealmDenomAuthority(preV, postV, t, grants) ==
   LET Sum(f) == f["u1"] + f["u2"] + f["att"] + f["vault"] + f["vdep"] + f["mal"] + f["mdep"] + f["coll"]
+      IssuerActed == t.issues > 0 \/ t.deleg > 0 \/ "vault" \in grants
   IN /\ \A X \in DOMAIN preV : postV[X] < preV[X] =>
-            \/ t.issues > 0
+            \/ IssuerActed
             \/ (X = t.signer /\ (t.run \/ preV[X] - postV[X] <= t.sendsV))
-     /\ Sum(postV) # Sum(preV) => t.issues > 0
+     /\ Sum(postV) # Sum(preV) => IssuerActed
 =============================================================================
